@@ -22,6 +22,23 @@ import zipfile
 from harness import axmlgen, axmlwriter as W
 from harness.fw import REPO, Check, Driver
 
+# the functions Model/Axml.lean transliterates (a changed AST escalates the search; it is not a verdict)
+PINS = [("androguard/core/axml/__init__.py", "AXMLParser.__init__"), ("androguard/core/axml/__init__.py", "AXMLParser._do_next"),
+        ("androguard/core/axml/__init__.py", "AXMLParser.nsmap"), ("androguard/core/axml/__init__.py", "AXMLParser.name"),
+        ("androguard/core/axml/__init__.py", "AXMLParser.namespace"), ("androguard/core/axml/__init__.py", "AXMLParser.text"),
+        ("androguard/core/axml/__init__.py", "AXMLParser.comment"),
+        ("androguard/core/axml/__init__.py", "AXMLParser.getAttributeCount"), ("androguard/core/axml/__init__.py", "AXMLParser.getAttributeUri"),
+        ("androguard/core/axml/__init__.py", "AXMLParser.getAttributeNamespace"), ("androguard/core/axml/__init__.py", "AXMLParser.getAttributeName"),
+        ("androguard/core/axml/__init__.py", "AXMLParser.getAttributeValueType"), ("androguard/core/axml/__init__.py", "AXMLParser.getAttributeValueData"),
+        ("androguard/core/axml/__init__.py", "AXMLParser.getAttributeValue"), ("androguard/core/axml/__init__.py", "AXMLParser._get_attribute_offset"),
+        ("androguard/core/axml/__init__.py", "StringBlock.__init__"), ("androguard/core/axml/__init__.py", "StringBlock.getString"),
+        ("androguard/core/axml/__init__.py", "StringBlock._decode8"), ("androguard/core/axml/__init__.py", "StringBlock._decode16"),
+        ("androguard/core/axml/__init__.py", "StringBlock._decode_bytes"), ("androguard/core/axml/__init__.py", "StringBlock._decode_length"),
+        ("androguard/core/axml/__init__.py", "AXMLPrinter.__init__"), ("androguard/core/axml/__init__.py", "AXMLPrinter._fix_name"),
+        ("androguard/core/axml/__init__.py", "AXMLPrinter._fix_value"), ("androguard/core/axml/__init__.py", "AXMLPrinter._get_attribute_value"),
+        ("androguard/core/axml/__init__.py", "AXMLPrinter._print_namespace"), ("androguard/core/axml/__init__.py", "format_value"),
+        ("androguard/core/axml/__init__.py", "ARSCHeader.__init__")]
+
 CORPUS = os.path.join(os.path.dirname(os.path.dirname(os.path.dirname(os.path.abspath(__file__)))), "corpus", "C26")
 
 
@@ -275,9 +292,40 @@ def judge(ck, tree, utf8, wide, data, reply, printer, case):
         ck.fail(case, "well-formed document is rejected or raises", None, show(exp)[:300], reply[:300]); return False
     got = lx_tuple(printer.get_xml_obj())
     if not matches(exp, got):
+        d = first_diff(exp, got, "/")
+        if d is not None:
+            ck.fail(case, "printed tree differs from the encoded tree: " + d[0], None, d[1], d[2]); return False
         ck.fail(case, "printed tree differs from the encoded tree (element structure, namespace, attribute or text)",
                 None, show(exp)[:600], show(got)[:600]); return False
     return True
+
+
+def first_diff(exp, got, path):
+    """(what, expected, observed) for the first differing item, attribute by attribute"""
+    if exp[0] != got[0]:
+        return ("text chunk vs element at " + path, show(exp)[:200], show(got)[:200])
+    if exp[0] == "T":
+        return None if exp[1] == got[1] else ("text at " + path, repr(exp[1])[:200], repr(got[1])[:200])
+    here = path + exp[1]
+    if exp[1:3] != got[1:3]:
+        return ("element name / namespace at " + path, repr(exp[1:3]), repr(got[1:3]))
+    ea = {(a, b): c for a, b, c in exp[3]}
+    ga = {(a, b): c for a, b, c in got[3]}
+    for k in ea:
+        if k not in ga:
+            return ("attribute %r of <%s> is missing" % (k, here), repr(ea[k])[:200], "absent")
+        if ea[k] is not None and ea[k] != ga[k]:
+            return ("value of attribute %r of <%s> is not the string for its declared type" % (k, here), repr(ea[k])[:200], repr(ga[k])[:200])
+    for k in ga:
+        if k not in ea:
+            return ("<%s> has an attribute %r that was not encoded" % (here, k), "absent", repr(ga[k])[:200])
+    if len(exp[4]) != len(got[4]):
+        return ("number of children of <%s>" % here, str(len(exp[4])), str(len(got[4])))
+    for i, (x, y) in enumerate(zip(exp[4], got[4])):
+        d = first_diff(x, y, here + "[%d]/" % i)
+        if d is not None:
+            return d
+    return None
 
 
 def judge_serialised(ck, tree, printer, case):
@@ -314,6 +362,7 @@ def tree_from_json(j):
 
 def run(ck: Check):
     rng = ck.rng
+    ck.pins_changed(PINS)
     ck.run_gen("axmlconsts")
     ck.prove(exes=["drv_C26"])
     drv = Driver("drv_C26")
@@ -352,6 +401,8 @@ def run(ck: Check):
 
     # ---- well-formed stream: T and S
     n_wf = 1500 if ck.quick else 60000
+    if ck.quick and ck.escalated:
+        n_wf = 6000
     datas, reals, dist = [], [], {"wf_utf8": 0, "wf_utf16": 0, "wf_wide": 0, "wf_elements": 0, "wf_attrs": 0, "wf_texts": 0, "wf_resid_attrs": 0}
     types_seen, distinct, samples, nser = set(), [], [], 0
     spec_reqs, spec_writer, spec_real = [], [], []
@@ -392,6 +443,40 @@ def run(ck: Check):
     dist["wf_value_types_seen"] = len(types_seen)
     dist["wf_reparsed_get_xml"] = nser
     ck.cover(evaluations=n_wf, distinct=distinct, samples=samples, dist=dist)
+
+    # ---- attrExt layout: per-element attributeSize 20/24/28/36 (padding after each attribute) and non-zero idIndex / classIndex /
+    # styleIndex; the tree a document denotes does not depend on them (S and T).  Typed values are judged attribute by attribute.
+    n_l = (500 if not ck.escalated else 2500) if ck.quick else 20000
+    datas, reals, ld = [], [], {"layout_documents": 0, "layout_mixed_sizes": 0, "layout_padded_multi_attr_elements": 0}
+    for i in range(n_l):
+        tree = axmlgen.vary_layout(rng, axmlgen.gen_tree(rng, max_depth=rng.choice((1, 2, 3)), sysattrs=sysattrs))
+        utf8 = rng.random() < 0.5
+        data = W.encode_axml(tree, utf8=utf8)
+        reply, pr = real_axml(data)
+        case = case_of("layout", i, utf8, False, data)
+        case["seed"] = ck.seed
+        judge(ck, tree, utf8, False, data, reply, pr, case)
+        datas.append(data); reals.append(reply)
+        sizes, padded = set(), [0]
+
+        def walk(e):
+            sizes.add(e.attr_size)
+            padded[0] += e.attr_size != 20 and len(e.attrs) >= 2
+            for c in e.children:
+                if isinstance(c, W.Element):
+                    walk(c)
+        walk(tree)
+        ld["layout_documents"] += 1; ld["layout_mixed_sizes"] += len(sizes) > 1; ld["layout_padded_multi_attr_elements"] += padded[0]
+    correspond("axml-attr-layout", datas, reals)
+    ck.cover(evaluations=n_l, distinct=[("layout", d) for d in datas], dist=ld)
+    # attributeStart > 20 (a gap before the attribute array): the code never looks at attributeStart and reads the attributes
+    # right behind attrExt; correspondence only (the model mirrors that), not judged
+    datas, reals = [], []
+    for i in range(n_l // 2):
+        tree = axmlgen.vary_layout(rng, axmlgen.gen_tree(rng, max_depth=2, sysattrs=sysattrs), start_gap=True)
+        data = W.encode_axml(tree, utf8=rng.random() < 0.5)
+        datas.append(data); reals.append(real_axml(data)[0])
+    correspond("axml-attribute-start", datas, reals)
 
     # ---- long strings: both length-prefix forms of both encodings (S and T)
     for k, n in enumerate((0x7F, 0x80, 0x7FFF, 0x8000, 0x8123, 0x10001)):      # 0x10001: non-zero high half of a wide UTF-16 prefix
